@@ -5,14 +5,19 @@ the sub-scheduler (which imports this module through subrun's load_modules) find
 
   kind 'subrun' : payload is a tuple of pairs, read as a dict:
        new_execution (bool), executor (name in the caller's config), cache_scope / check_valid (forwarded with
-       subrun.options(...)), aslist (bool: hand the children over as a nested list of calls instead of one call)
+       subrun.options(...)), aslist (bool: hand the children over as a nested list of calls instead of one call),
+       wrap ('catch' / 'seq': the subrun'd expression is that scheduler-task call over the children)
+  opts may carry "lazy": (option name, shape, spec): a call-time option whose value is a lazy expression
      returns subrun(<child call(s)>, executor=..., new_execution=...)
   kind 'ctx'    : returns ["ctx", payload, <context variable k>, <context variable j>] ("none" when unset); the harness
        defines k (never j) in the scheduler's config-level context for some programs
+  kind 'probe'  : returns probe38(payload): an impure task reading external state and logging each real execution (only
+       used by the multi-execution histories, which compare subrun with direct evaluation, not with the reference)
   every other kind behaves exactly as in vm.py.
 
 `erase(spec)` removes the subrun nodes: the same program evaluated directly.
-`ref_eval38` is the scheduler-free reference (subrun is the identity on values and errors, and forwards the context).
+`ref_outcomes` is the scheduler-free, set-valued reference (subrun is the identity on values and errors, and forwards
+the context; call options, lazy or not, do not change a value).
 """
 from redun import task
 from redun.context import get_context
@@ -29,11 +34,34 @@ def recover38(error):
     return ("recovered", str(error))
 
 
+def _probe_dir():
+    import os
+    return os.environ.get("RV_C38_PROBE_DIR") or os.getcwd()
+
+
+@task(version="1")
+def probe38(name):
+    """IMPURE on purpose: returns the external state (file `state` in RV_C38_PROBE_DIR, changed by the harness between
+    executions) and leaves a mark in `log` every time it really executes, so that re-execution is observable."""
+    import os
+    d = _probe_dir()
+    try:
+        with open(os.path.join(d, "state")) as f:
+            state = f.read().strip()
+    except OSError:
+        state = "unset"
+    with open(os.path.join(d, "log"), "a") as f:
+        f.write(f"{name}\n")
+    return ["probe", name, state]
+
+
 @task(version="1")
 def node38(spec):
     name, kind, payload, children = spec[:4]
     if kind == "leaf":
         return payload
+    if kind == "probe":
+        return probe38(payload)
     if kind == "raise":
         raise ValueError(payload)
     if kind == "ctx":
@@ -52,6 +80,10 @@ def node38(spec):
         if so:
             sr = subrun.options(**so)
         inner = list(calls) if p.get("aslist") else calls[0]
+        if p.get("wrap") == "catch":          # the subrun'd expression is a scheduler-task call itself
+            inner = catch(calls[0], ValueError, recover38)
+        elif p.get("wrap") == "seq":
+            inner = seq(list(calls))
         return sr(inner, executor=p.get("executor", "default"), new_execution=bool(p.get("new_execution", False)))
     raise AssertionError(kind)
 
@@ -62,8 +94,23 @@ async def anode38(x):
     return x
 
 
+def _lazy_options(opts, call):
+    """opts["lazy"] = (option name, shape, spec): a call-time option whose VALUE is a lazy expression --
+    shape 'call': a task call, 'simple': a SimpleExpression over one, 'nested': one nested in a dict/list value"""
+    lz = opts.pop("lazy", None)
+    if lz:
+        oname, shape, sub = lz
+        e = call(sub)
+        if shape == "simple":
+            e = e + 1
+        elif shape == "nested":
+            e = {"a": [e, 1]}
+        opts[oname] = e
+    return opts
+
+
 def call38(spec):
-    opts = dict(spec[4]) if len(spec) > 4 and spec[4] else {}
+    opts = _lazy_options(dict(spec[4]) if len(spec) > 4 and spec[4] else {}, call38)
     t = node38
     ctx = opts.pop("context", None)
     if opts:
@@ -77,9 +124,14 @@ def erase(spec):
     """The same program without sub-scheduler runs (subrun(e) replaced by e, subrun([e..]) by a seq-free list)."""
     name, kind, payload, children = spec[:4]
     opts = spec[4] if len(spec) > 4 else None
+    if opts and "lazy" in opts:
+        opts = dict(opts, lazy=(opts["lazy"][0], opts["lazy"][1], erase(opts["lazy"][2])))
     ch = tuple(erase(c) for c in children)
     if kind == "subrun":
-        if dict(payload).get("aslist"):
+        p = dict(payload)
+        if p.get("wrap"):
+            return (name, "alias", p["wrap"], ch, opts)
+        if p.get("aslist"):
             return (name, "plainlist", 0, ch, opts)
         return (name, "alias", 0, ch, opts)
     return (name, kind, payload, ch, opts)
@@ -91,6 +143,8 @@ def direct38(spec):
     name, kind, payload, children = spec[:4]
     if kind == "leaf":
         return payload
+    if kind == "probe":
+        return probe38(payload)
     if kind == "raise":
         raise ValueError(payload)
     if kind == "ctx":
@@ -103,6 +157,10 @@ def direct38(spec):
     if kind == "seq":
         return seq(calls)
     if kind == "alias":
+        if payload == "catch":
+            return catch(calls[0], ValueError, recover38)
+        if payload == "seq":
+            return seq(list(calls))
         return calls[0]
     if kind == "plainlist":
         return list(calls)
@@ -110,7 +168,7 @@ def direct38(spec):
 
 
 def calld(spec):
-    opts = dict(spec[4]) if len(spec) > 4 and spec[4] else {}
+    opts = _lazy_options(dict(spec[4]) if len(spec) > 4 and spec[4] else {}, calld)
     t = direct38
     ctx = opts.pop("context", None)
     if opts:
@@ -118,42 +176,6 @@ def calld(spec):
     if ctx:
         t = t.update_context(ctx)
     return t(spec[:4])
-
-
-def ref_eval38(spec, ctx=None):
-    """Value of call38(spec) under parent context ctx; raises Raised(set of admissible messages)."""
-    ctx = ctx or {}
-    name, kind, payload, children = spec[:4]
-    opts = spec[4] if len(spec) > 4 and spec[4] else {}
-    myctx = merge_ctx(ctx, opts.get("context"))
-    if kind == "leaf":
-        return payload
-    if kind == "ctx":
-        return ["ctx", payload, myctx.get("k", "none"), myctx.get("j", "none")]
-    if kind == "raise":
-        raise Raised([str(payload)])
-    if kind in ("list", "plainlist") or (kind == "subrun" and dict(payload).get("aslist")):
-        vals, errs = [], set()
-        for ch in children:
-            try:
-                vals.append(ref_eval38(ch, myctx))
-            except Raised as r:
-                errs |= r.msgs
-        if errs:
-            raise Raised(errs)
-        return [payload, vals] if kind == "list" else vals
-    if kind in ("subrun", "alias"):
-        return ref_eval38(children[0], myctx)
-    if kind == "seq":
-        return [ref_eval38(ch, myctx) for ch in children]
-    if kind == "catch":
-        try:
-            return ref_eval38(children[0], myctx)
-        except Raised as r:
-            if len(r.msgs) == 1:
-                return ("recovered", next(iter(r.msgs)))
-            raise Raised({"<one of several>"}) from None
-    raise AssertionError(kind)
 
 
 # ---------------------------------------------------------------------------------------------------------------
@@ -187,7 +209,12 @@ def ref_outcomes(spec, ctx=None):
     if kind == "raise":
         return {("err", str(payload))}
     kids = [ref_outcomes(ch, myctx) for ch in children]
-    if kind in ("subrun", "alias") and not (kind == "subrun" and dict(payload).get("aslist")):
+    wrap = (dict(payload).get("wrap") if kind == "subrun" else payload if kind == "alias" else None) or None
+    if wrap == "catch":
+        kind = "catch"
+    elif wrap == "seq":
+        kind = "seq"
+    elif kind in ("subrun", "alias") and not (kind == "subrun" and dict(payload).get("aslist")):
         return kids[0]
     if kind == "catch":
         return {o if o[0] == "val" else ("val", ("recovered", o[1])) for o in kids[0]}
